@@ -102,6 +102,12 @@ def gen_cases(tier, seed):
                 yield dict(kind="clf", est=name, opt=0, cols=P.CLF_COLS[name][-1], labels=lab,
                            balanced=True, fam=fam, n=n, L=Lc, rs=rs, xc="nested", yseries=False,
                            prefit=True)
+    # a column ensemble one of whose entries is "drop" (skipped at fit)
+    for lab in ("01", "bac"):
+        for rs in (0, 1):
+            fam, n, L = panels[0]
+            yield dict(kind="clf", est="CENS", opt=2, cols=2, labels=lab, balanced=True, fam=fam,
+                       n=n, L=L, rs=rs, xc="nested", yseries=False)
     # the forests under n_jobs > 1 (joblib threading backend): n_estimators is not a multiple of
     # the number of jobs
     for name in ("TSF", "RISE", "STSF"):
@@ -322,7 +328,8 @@ def _run_case(case):
         else:
             ref, nm = o.value
             if nm != 2:
-                res.violate("CENS:whitebox", "number of fitted members", expected=2, observed=nm)
+                res.violate("CENS:whitebox", "number of fitted members (entries that are not "
+                            "'drop')", expected=2, observed=nm)
             elif not np.allclose(Pm, ref, rtol=1e-9, atol=1e-12):
                 d = int(np.argmax(np.abs(Pm - ref).max(axis=1)))
                 res.violate("CENS:whitebox", "probabilities are not the mean of the members' "
